@@ -23,7 +23,8 @@ RULE = ("state = multinet (power net + hgas net [+ hydrogen net]) after each con
         "(P2G, G2P gas-led on sgen / load / gen, G2P power-led, G2G) x efficiency {1, 0.7} x scaling of the coupled element "
         "{1, 0.5, per-element (0.5, 2)} x index form {scalar, vector, vector over a gapped table index} x chains of two "
         "controllers in all orders on one level and on two levels (P2G -> G2G, G2G -> G2P) x feasible / infeasible gas "
-        "member; round trips P2G then G2P; time series of 3 steps with a ConstControl on the power side. transitions = "
+        "member; round trips P2G then G2P; time series of 3 steps with a ConstControl on the power side (P2G) and on the gas side (gas-led G2P, members "
+        "added in both orders). transitions = "
         "control runs / time steps.")
 ASSUMPTIONS = ["heating values read by the harness from properties/<fluid>/higher_heating_value.txt",
                "pandapower's controller loop and power flow are trusted; stand-alone reference = deepcopy of the member net with "
@@ -100,6 +101,11 @@ def cases(tier):
         for ix in ("scalar", "vector"):
             for prof in ([0.1, 0.5, 0.3], [0.4, 0.0, 0.2]):
                 out.append({"kind": "timeseries", "eff": eff, "index": ix, "profile": prof})
+    # the profile sits in the gas net (net-local ConstControl there, none in the power net), gas-led G2P; every member order
+    for eff in effs:
+        for order in ("power_first", "gas_first"):
+            for prof in ([0.004, 0.02, 0.008], [0.01, 0.0, 0.015]):
+                out.append({"kind": "timeseries_gas", "eff": eff, "order": order, "profile": prof})
     return out
 
 
@@ -361,6 +367,49 @@ def run_case(case):
             if not np.allclose(got_p, want_p, rtol=1e-7, atol=1e-9):
                 vs.append(viol("timeseries_step_differs", "%s: step %d junction pressures %s, stand-alone %s" % (where, t, got_p, want_p), **tag))
                 break
+            states.append(core.jhash([case, t]))
+    elif k == "timeseries_gas":
+        from pandapower.control import ConstControl
+        from pandapower.timeseries import DFData, OutputWriter
+        mn = create_empty_multinet("m")
+        p, g = power_net(), gas_net("hgas")
+        for name in (("power", "gas") if case["order"] == "power_first" else ("gas", "power")):
+            add_net_to_multinet(mn, p if name == "power" else g, name)
+        tag["order"] = case["order"]
+        prof = case["profile"]
+        ds = DFData(pd.DataFrame({"s0": prof}))
+        ConstControl(g, element="sink", variable="mdot_kg_per_s", element_index=[0], data_source=ds, profile_name=["s0"])
+        G2PControlMultiEnergy(mn, 1, 0, efficiency=case["eff"], element_type_power="sgen")
+        steps = list(range(len(prof)))
+        ow_g = OutputWriter(g, steps, output_path=None, log_variables=[("res_junction", "p_bar"), ("sink", "mdot_kg_per_s"), ("res_sink", "mdot_kg_per_s")])
+        ow_p = OutputWriter(p, steps, output_path=None, log_variables=[("res_bus", "vm_pu"), ("sgen", "p_mw"), ("res_sgen", "p_mw")])
+        where = "time series, profile %s on a gas sink, gas-led G2P eff %s, members added %s" % (prof, case["eff"], case["order"])
+        try:
+            run_timeseries_mn(mn, time_steps=steps, verbose=False)
+        except Exception as e:
+            vs.append(viol("timeseries_raises", "%s: %s: %s" % (where, type(e).__name__, str(e)[:120]), exc=type(e).__name__, **tag))
+            return {"status": "ok", "violations": vs, "states": [core.jhash(case)], "transitions": 1, "traces": 1, "nontrivial": True, "sig": core.jhash(case)}
+        transitions += len(steps)
+        fH = hhv("hgas")
+        for t in steps:
+            gref, pref = gas_net("hgas"), power_net()
+            gref.sink.at[0, "mdot_kg_per_s"] = prof[t]
+            pp.pipeflow(gref)
+            pref.sgen.at[1, "p_mw"] = prof[t] * fH * 3600 / 1e3 * case["eff"]
+            ppw.runpp(pref)
+            for key, got, want, tol in (
+                    ("gas sink.mdot_kg_per_s", ow_g.output["sink.mdot_kg_per_s"].loc[t].values, gref.sink.mdot_kg_per_s.values, 1e-12),
+                    ("gas res_sink.mdot_kg_per_s", ow_g.output["res_sink.mdot_kg_per_s"].loc[t].values, gref.res_sink.mdot_kg_per_s.values, 1e-9),
+                    ("gas res_junction.p_bar", ow_g.output["res_junction.p_bar"].loc[t].values, gref.res_junction.p_bar.values, 1e-7),
+                    ("power sgen.p_mw", ow_p.output["sgen.p_mw"].loc[t].values, pref.sgen.p_mw.values, 1e-10),
+                    ("power res_sgen.p_mw", ow_p.output["res_sgen.p_mw"].loc[t].values, pref.res_sgen.p_mw.values, 1e-8),
+                    ("power res_bus.vm_pu", ow_p.output["res_bus.vm_pu"].loc[t].values, pref.res_bus.vm_pu.values, 1e-8)):
+                got = np.asarray(got, dtype=float)
+                want = np.asarray(want, dtype=float)
+                if got.shape != want.shape or not np.allclose(got, want, rtol=tol, atol=1e-12):
+                    vs.append(viol("timeseries_step_differs", "%s: step %d %s logged %s, stand-alone %s" % (where, t, key, got, want),
+                                   var=key, **tag))
+                    break
             states.append(core.jhash([case, t]))
     return {"status": "ok", "violations": vs, "states": states, "transitions": transitions, "traces": 1, "nontrivial": True,
             "sig": core.jhash(case)}
